@@ -290,6 +290,11 @@ func (p *uPacketPacker) appendInitialPacketPayload(buffer *packetBuffer, header 
 			minUDPSize = DefaultUDPDatagramMinSize
 		}
 		if len(buffer.Data) < minUDPSize {
+			// Same reasoning as for the packet itself above: growing past the packet buffer
+			// would move buffer.Data off its pooled array (and panic when it is released).
+			if minUDPSize > cap(buffer.Data) {
+				return nil, fmt.Errorf("uquic: UDPDatagramMinSize %d does not fit the packet buffer (%d bytes)", minUDPSize, cap(buffer.Data))
+			}
 			buffer.Data = append(buffer.Data, make([]byte, minUDPSize-len(buffer.Data))...)
 		}
 	}
